@@ -1,6 +1,7 @@
 """C14 — DMX export/parse preserves the element graph in binary and KeyValues2 form; KV1 bridge."""
 import io, json, copy
 from common import codes, uncodes, ddmin
+from tokutil import fold_table
 import c14_graphs as G
 
 PID = 'C14'
@@ -41,6 +42,10 @@ ERR_NONASCII, ERR_TIME = 4, 9
 def _impl():
     from srctools.dmx import Element
     return Element
+
+
+def kv2_header(mode):
+    return b'<!-- dmx encoding %skeyvalues2 1 format dmx 1 -->\r\n' % (b'unicode_' if mode == 'format' else b'')
 
 
 def bin_header(v, mode):
@@ -91,6 +96,8 @@ def roundtrip(spec, cfg):
     elems = G.build(spec)
     root = elems[0]
     res = {'orig': G.canon(root)}
+    if cfg['fmt'] == 'kv2':
+        res['orig_text'] = G.canon_text(root)
     buf = io.BytesIO()
     try:
         if cfg['fmt'] == 'binary':
@@ -105,6 +112,8 @@ def roundtrip(spec, cfg):
     try:
         parsed, fmt_name, fmt_ver = Element.parse(io.BytesIO(res['data']), unicode=(cfg['mode'] == 'silent'))
         res['parsed'] = G.canon(parsed)
+        if cfg['fmt'] == 'kv2':
+            res['parsed_text'] = G.canon_text(parsed)
         res['fmt'] = [fmt_name, fmt_ver]
     except Exception as e:
         res['parse_exc'] = type(e).__name__
@@ -322,6 +331,17 @@ def correspond(ctx, drivers):
                         ctx.disagree(case, res['data'][:80].decode('latin1'), hdr.decode(), 'binary header comment')
                     reqs.append({'op': 'decode', 'v': cfg['v'], 'uni': uni, 'bytes': list(res['data'][len(hdr):])})
                 meta.append((spec, sc, cfg, res))
+            else:
+                reqs.append({'op': 'kv2', 'flat': cfg['flat'], 'cull': cfg['cull'], 'g': res['orig_text']})
+                if 'data' in res:
+                    hdr = kv2_header(cfg['mode'])
+                    if not res['data'].startswith(hdr):
+                        ctx.disagree(case, res['data'][:80].decode('latin1'), hdr.decode(), 'kv2 header comment')
+                    text = res['data'][len(hdr):].decode('utf8')
+                    # TextIOWrapper(newline=None) hands the tokenizer universal-newline text
+                    text_nl = text.replace('\r\n', '\n').replace('\r', '\n')
+                    reqs.append({'op': 'kv2parse', 'text': codes(text_nl), 'fold': fold_table(text_nl)})
+                meta.append((spec, sc, cfg, res))
         ctx.count(f'profile:{prof}')
         ctx.count('elements=%d' % min(len(sc['elems']), 9))
         for e in sc['elems']:
@@ -359,6 +379,9 @@ def correspond(ctx, drivers):
     for spec, sc, cfg, res in meta:
         case = {'spec': spec, 'cfg': cfg}
         enc = next(it)
+        if cfg['fmt'] == 'kv2':
+            _kv2_compare(ctx, case, cfg, res, enc, it)
+            continue
         hdr = bin_header(cfg['v'], cfg['mode'])
         if 'export_exc' in res:
             want = {'UnicodeEncodeError': ERR_NONASCII, 'ValueError': ERR_TIME}.get(res['export_exc'])
@@ -398,6 +421,39 @@ def correspond(ctx, drivers):
         if not r.get('ok'):
             ctx.disagree({'kv1': t}, 'generated tree', 'KV.ok = false', 'generator left the domain of the theorem')
         ctx.traces_vs_impl += 1
+
+
+def _kv2_compare(ctx, case, cfg, res, emitted, it):
+    """model emit vs exported text; model parse of the exported text vs original graph and Element.parse."""
+    ctx.traces_vs_impl += 1
+    if 'export_exc' in res:
+        # the text model has no encoding step: a refusal must be the documented ascii one (judged by search)
+        return
+    par = next(it)
+    body = res['data'][len(kv2_header(cfg['mode'])):].decode('utf8')
+    if uncodes(emitted.get('text', [])) != body:
+        m = uncodes(emitted.get('text', []))
+        k = next((i for i, (x, y) in enumerate(zip(m, body)) if x != y), min(len(m), len(body)))
+        ctx.disagree(case, body[max(0, k - 30):k + 30], m[max(0, k - 30):k + 30], 'export_kv2 text (first difference at %d)' % k)
+    if 'nodes' not in par:
+        ctx.disagree(case, res.get('parsed_text', res.get('parse_exc')), par, 'model cannot parse the exported text')
+        return
+    mg = G.renumber_nodes(par['nodes'])
+    # written uuids: all, or only the roots under cull_uuid
+    keep = kv2_roots(res['orig'], cfg['flat']) if cfg['cull'] else set(range(len(res['orig']['elems'])))
+    for i, e in enumerate(mg['elems']):
+        if (e['uuid'] is not None) != (i in keep):
+            ctx.disagree(case, sorted(keep), i, 'which elements carry an id in the text')
+            break
+    d = G.text_graph_diff(res['orig_text'], mg)
+    if d:
+        ctx.disagree(case, 'original graph', d, 'model parse of exported text vs original graph')
+    if 'parsed_text' in res:
+        d = G.text_graph_diff(res['parsed_text'], mg)
+        if d:
+            ctx.disagree(case, 'Element.parse', d, 'Element.parse vs model parse of the same text')
+    elif 'parse_exc' in res:
+        ctx.disagree(case, res['parse_exc'] + ': ' + res['parse_msg'], 'model parses', 'Element.parse fails where the model parses')
 
 
 # ----------------------------------------------------------------------------- search
